@@ -85,10 +85,10 @@ impl Window {
     pub fn tumble(ts: TimestampMs, size_ms: u64, offset_ms: u64) -> Self {
         debug_assert!(size_ms > 0);
         // Position relative to the offset; windows start at offset + k*size.
-        let rel = ts - offset_ms;
+        let rel = ts - offset_ms % size_ms;
         // For u64, floor division equals integer division.
         let k = div_floor(rel, size_ms);
-        let win_start = k * size_ms + offset_ms;
+        let win_start = k * size_ms + offset_ms % size_ms;
         Self {
             start: win_start,
             end: win_start + size_ms,
